@@ -1071,7 +1071,7 @@ def run(ck):
     jobs.append(((pmod, hcfg), dict(name=PID + "/priors_hist", dump=True, check=False, workers=2)))
     meta.append(("priors_hist", "as coded", None, 0))
     jobs.append(((pmod, rcfg), dict(name=PID + "/priors_hist_repaired", check=False, workers=2)))
-    meta.append(("priors_hist", "alias kept", None, 0))
+    meta.append(("priors_hist", "other variant", None, 0))
     results = tlc.run_many(jobs, parallel=4)
     phases["tlc"] = round(time.time() - t0, 1)
 
@@ -1093,6 +1093,11 @@ def run(ck):
     prior_points = prior_hists = None
     for (what, kind, name, L), res in zip(meta, results):
         ck.add_tlc(res, "%s %s %s" % (what, kind or "", name or ""))
+        if what == "priors_hist" and kind == "other variant" and c17_priors.PRIOR_ALIAS_FIXED:
+            # the pinned design (a conversion separates the buffers from base_dist) must violate HAgree
+            if res.violation is None:
+                ck.vacuous("ConstraintPriors.tla HSpec accepts the pinned design (alias lost by a dtype conversion)")
+            continue
         if res.violation is not None:
             ck.model_drift("%s run %s/%s violates %s on the code-shaped model" % (what, kind, name, res.violation["name"]))
         elif res.rc != 0:
